@@ -65,9 +65,15 @@ fn file_round_trip(vals: &[i32]) -> (Vec<i32>, u8) {
     (g.params.iter().map(|p| p.0).collect(), warn_code(&ws))
 }
 
-fn rt_signature(v: i32, got: Option<i32>, warn: u8) -> String {
-    if v == i32::MIN {
+/// `exact_c17a`: the input is exactly the word 0x80000000 and the implementation did exactly what
+/// the known finding C17-a records (and the model reproduces): printed `-2048.0`, the reader
+/// answered (0, DecimalNumberIsTooBig). Only then the known signature is used; any other failure
+/// of that word, and every failure of another word, gets its own signature.
+fn rt_signature(v: i32, got: Option<i32>, warn: u8, exact_c17a: bool) -> String {
+    if v == i32::MIN && exact_c17a {
         "round trip: fix_word 0x80000000 (-2048.0) is rejected by the reader".into()
+    } else if v == i32::MIN {
+        format!("round trip: fix_word 0x80000000 fails differently from C17-a (read back {got:?}, warning {warn})")
     } else if warn == 8 {
         "round trip: panic".into()
     } else if warn != 0 {
@@ -237,7 +243,7 @@ impl C17 {
                 out.fail(
                     Kind::ImplVsSpec,
                     "roundtrip",
-                    rt_signature(*v, got, warn),
+                    rt_signature(*v, got, warn, text == "-2048.0" && text == m_text && got == Some(0) && warn == 2 && m_val == "0" && m_warn == "2"),
                     format!("fix_word {v} prints as {text}; the reader returns {i_show} (value:warning)"),
                 );
             }
@@ -276,7 +282,8 @@ impl C17 {
         out.tag(if case.starts_with("swf") { "sweep:all-fractions" } else { "sweep:stride" });
         let mut seen = BTreeSet::new();
         for (v, got, w) in bad {
-            let sig = rt_signature(v, got, w);
+            let exact = v == i32::MIN && got == Some(0) && w == 2 && caught(|| format!("{}", FixWord(v))).ok().as_deref() == Some("-2048.0");
+            let sig = rt_signature(v, got, w, exact);
             if seen.insert(sig.clone()) {
                 out.fail(
                     Kind::ImplVsSpec,
